@@ -61,9 +61,14 @@ pub struct Scenario {
 	/// checkpoint (kept, then opened on its own) against a compaction round and a background flush;
 	/// no committers: the checkpoint must hold exactly the committed data
 	pub checkpoint_vs_bg: bool,
+	/// a history cursor (version index + value log) stepped while a compaction drops the expired
+	/// first versions and cleans up their value-log files
+	pub history_cursor: bool,
 	/// the store starts with two immutable memtables pending (at the stall limit) and there is no
 	/// background thread: only the closer's shutdown signal can release a stalled writer
 	pub two_pending: bool,
+	/// every committer except the first has its commit-log write fail (injected)
+	pub fail_all_but_first: bool,
 	/// preemption bounds (quick, thorough)
 	pub bounds: (usize, usize),
 }
@@ -87,7 +92,9 @@ pub fn scenarios(property: &str, tier: Tier) -> Vec<Scenario> {
 		room: 1,
 		two_flushers: false,
 		checkpoint_vs_bg: false,
+		history_cursor: false,
 		two_pending: false,
+		fail_all_but_first: false,
 		bounds: (2, 3),
 	};
 	let all = vec![
@@ -196,6 +203,29 @@ pub fn scenarios(property: &str, tier: Tier) -> Vec<Scenario> {
 			..base.clone()
 		},
 		Scenario {
+			// nine committers, the second one's log write fails: its batch stays queued behind a
+			// slow first one without a committer (and, if permits follow committers, without a permit)
+			name: "c17-nine-committers-one-failing",
+			property: "C17",
+			bounds: (1, 2),
+			committers: vec![vec!["n0"], vec!["n1"], vec!["n2"], vec!["n3"], vec!["n4"], vec!["n5"], vec!["n6"], vec!["n7"], vec!["n8"]],
+			deviation_bounded: true,
+			fail: Some(("commit.wal", 1)),
+			..base.clone()
+		},
+		Scenario {
+			// one slow committer and eight whose log write fails: a failed commit returns (and gives
+			// its permit back) while its batch still sits in the queue behind the slow one
+			name: "c17-one-slow-eight-failing",
+			property: "C17",
+			bounds: (1, 2),
+			committers: vec![vec!["n0"], vec!["n1"], vec!["n2"], vec!["n3"], vec!["n4"], vec!["n5"], vec!["n6"], vec!["n7"], vec!["n8"]],
+			symmetric: false,
+			deviation_bounded: true,
+			fail_all_but_first: true,
+			..base.clone()
+		},
+		Scenario {
 			name: "c04-overlapping-keys",
 			property: "C04",
 			committers: vec![vec!["x", "y"], vec!["y", "z"], vec!["w"]],
@@ -257,6 +287,13 @@ pub fn scenarios(property: &str, tier: Tier) -> Vec<Scenario> {
 			vlog_small_tables: true,
 			..base.clone()
 		},
+		Scenario {
+			name: "c11-history-cursor-vs-compaction-cleanup",
+			property: "C11",
+			bounds: (2, 3),
+			history_cursor: true,
+			..base.clone()
+		},
 	];
 	let _ = tier;
 	all.into_iter().filter(|s| s.property == property).collect()
@@ -314,6 +351,15 @@ fn calibrate_near_full(opt: &OptSet) -> Result<usize, String> {
 
 pub const VLOG_KEYS: [&str; 4] = ["m1", "m2", "n1", "z9"];
 
+/// the current value of key `k` in the C11 scenarios
+fn c11_value(history: bool, k: &str) -> Vec<u8> {
+	let mut v = vlog_value(k);
+	if history {
+		v.extend_from_slice(b"-round1");
+	}
+	v
+}
+
 fn vlog_value(k: &str) -> Vec<u8> {
 	let mut v = format!("big-{k}-").into_bytes();
 	v.resize(150, b'x');
@@ -321,6 +367,27 @@ fn vlog_value(k: &str) -> Vec<u8> {
 }
 
 fn setup(sc: &Scenario) -> Result<Setup, String> {
+	if sc.history_cursor {
+		// two tables: first versions of four keys (value-log files 1..), then second versions; the
+		// retention of 1 ns makes the first versions droppable by the next compaction
+		let opt = OptSet::base("sched-history-index-vlog64-cache0").levels(2).versioned(1, true).with_vlog(0, 64).cache(0);
+		let mut w = World::new(opt, &[])?;
+		for round in 0..2 {
+			for k in VLOG_KEYS {
+				let mut v = vlog_value(k);
+				v.extend_from_slice(format!("-round{round}").as_bytes());
+				w.commit(&[crate::model::Write::set(k.as_bytes(), &v)], surrealkv::Durability::Eventual)?.map_err(|e| e)?;
+			}
+			w.physical(crate::world::Phys::FlushAll)?;
+			std::thread::sleep(std::time::Duration::from_millis(2));
+		}
+		let tree = w.tree().clone();
+		return Ok(Setup {
+			world: w,
+			tree,
+			prefill_entries: 8,
+		});
+	}
 	if sc.vlog {
 		// two L0 tables whose values live in vlog files 1..3, plus an immutable memtable with one
 		// more large value waiting to be flushed
@@ -467,7 +534,7 @@ fn run_schedule(sc: &Scenario, prefix: &[usize]) -> Result<Outcome, String> {
 		let keys = keys.clone();
 		let board = Arc::clone(&board);
 		let dup = sc.dup_key && i == 2;
-		let fail = sc.fail.filter(|f| f.1 == i).map(|f| f.0);
+		let fail = if sc.fail_all_but_first && i > 0 { Some("commit.wal") } else { sc.fail.filter(|f| f.1 == i).map(|f| f.0) };
 		let rt_handle = su.world.rt.as_ref().unwrap().handle().clone();
 		programs.push(Box::new(move |s: &Arc<Sched>, me: usize| -> Result<(), String> {
 			let _g = rt_handle.enter();
@@ -550,6 +617,42 @@ fn run_schedule(sc: &Scenario, prefix: &[usize]) -> Result<Outcome, String> {
 				Ok(())
 			}));
 		}
+	}
+	if sc.history_cursor {
+		let tree = su.tree.clone();
+		let rt_handle = su.world.rt.as_ref().unwrap().handle().clone();
+		programs.push(Box::new(move |_s: &Arc<Sched>, _me: usize| -> Result<(), String> {
+			let _g = rt_handle.enter();
+			tree.verif_compact_round().map_err(|e| format!("compact: {e}"))?;
+			Ok(())
+		}));
+		let tree = su.tree.clone();
+		let rt_handle = su.world.rt.as_ref().unwrap().handle().clone();
+		programs.push(Box::new(move |_s: &Arc<Sched>, _me: usize| -> Result<(), String> {
+			use surrealkv::LSMIterator;
+			let _g = rt_handle.enter();
+			surrealkv::verif::yield_point_public("history:before-begin");
+			let txn = tree.begin_with_mode(Mode::ReadOnly).map_err(|e| format!("begin: {e}"))?;
+			let mut it = txn.history(crate::world::LO, crate::world::HI).map_err(|e| format!("history: {e}"))?;
+			let mut ok = it.seek_first().map_err(|e| format!("history seek_first: {e}"))?;
+			let mut n = 0usize;
+			while ok {
+				surrealkv::verif::yield_point_public("history:between-steps");
+				// every entry the cursor stands on must resolve to its value
+				let v = it.value().map_err(|e| format!("history cursor, entry {n}: value unreadable: {e}"))?;
+				if !v.windows(6).any(|w| w == b"-round") {
+					return Err(format!("history cursor, entry {n}: unexpected value of {} bytes", v.len()));
+				}
+				n += 1;
+				ok = it.next().map_err(|e| format!("history next after entry {n}: {e}"))?;
+			}
+			// the cursor sees the four current versions, plus whichever first versions the
+			// compaction had not yet dropped when it was opened
+			if n < VLOG_KEYS.len() {
+				return Err(format!("history cursor returned {n} entries, at least {} expected", VLOG_KEYS.len()));
+			}
+			Ok(())
+		}));
 	}
 	if sc.vlog {
 		for which in 0..2 {
@@ -667,6 +770,7 @@ fn run_schedule(sc: &Scenario, prefix: &[usize]) -> Result<Outcome, String> {
 			board.probes.lock().unwrap().push(obs);
 		}))
 	} else if sc.property == "C11" {
+		let history = sc.history_cursor;
 		let tree = su.tree.clone();
 		let board = Arc::clone(&board);
 		let rt_handle = su.world.rt.as_ref().unwrap().handle().clone();
@@ -688,7 +792,7 @@ fn run_schedule(sc: &Scenario, prefix: &[usize]) -> Result<Outcome, String> {
 				Ok(t) => {
 					for k in VLOG_KEYS {
 						match t.get(k.as_bytes()) {
-							Ok(Some(v)) if v == vlog_value(k) => {}
+							Ok(Some(v)) if v == c11_value(history, k) => {}
 							Ok(other) => obs.err = Some(format!("get({k}) = {:?}", other.map(|v| String::from_utf8_lossy(&v).chars().take(20).collect::<String>()))),
 							Err(e) => obs.err = Some(format!("get({k}): {e}")),
 						}
@@ -862,6 +966,7 @@ fn run_schedule(sc: &Scenario, prefix: &[usize]) -> Result<Outcome, String> {
 					Ok(()) => {}
 					Err(e) if e == "pipeline-stall" && sc.closer => {}
 					Err(e) if sc.fail.map(|f| f.1) == Some(i) && e.starts_with("error:") => {}
+					Err(e) if sc.fail_all_but_first && i > 0 && e.starts_with("error:") => {}
 					Err(e) => {
 						out.failure = Some((format!("unexpected-commit-error:{}", crate::props::norm_msg(e).chars().take(40).collect::<String>()), format!("committer {i}: {e}; results {results:?}")));
 						return Ok(out);
@@ -1090,7 +1195,7 @@ fn run_schedule(sc: &Scenario, prefix: &[usize]) -> Result<Outcome, String> {
 				let t = su.tree.begin_with_mode(Mode::ReadOnly).map_err(|e| format!("{e}"))?;
 				for k in VLOG_KEYS {
 					match t.get(k.as_bytes()) {
-						Ok(Some(v)) if v == vlog_value(k) => {}
+						Ok(Some(v)) if v == c11_value(sc.history_cursor, k) => {}
 						Ok(other) => {
 							out.failure = Some(("value-wrong-after-schedule".into(), format!("get({k}) = {:?}", other.map(|v| v.len()))));
 							return Ok(out);
